@@ -132,7 +132,7 @@ def write_coqproject():
     return not os.path.exists(os.path.join(COQ, "Makefile"))
 
 
-def coq_make(targets, timeout=3000, jobs=16):
+def coq_make(targets, timeout=3000, jobs=8):
     """Full .vo build of the given targets (and their dependencies)."""
     with Lock("coq"):
         if write_coqproject():
